@@ -85,3 +85,9 @@ package actionlint
 //@   at_return [C16] m == m && result1 != nil ==> nlfree(errtext(result1))
 //@ func (*LocalActionsCache).FindMetadata
 //@   ensures [C16] result2 != nil ==> nlfree(errtext(result2))
+
+// library error texts may echo text of the linted files (a YAML scalar, a cron spec): they pass through
+// singleLine before they become part of a message
+//@ func singleLine
+//@   props C16
+//@   ensures nlfree(result)
